@@ -2859,10 +2859,12 @@ impl Context {
                 self.get_ctxdata().next_state_offset = Some(skeleton.total_size());
                 let (retv, _t, states) = self.eval_expr(*expr);
 
+                // The feed cell is read (GetState) before the body runs, i.e. it sits at the
+                // start of the function's state region, in front of the body's cells.
                 (
                     Arc::new(Value::State(retv)),
                     ty,
-                    [states, vec![skeleton]].concat(),
+                    [vec![skeleton], states].concat(),
                 )
             }
             Expr::Let(pat, body, then) => {
